@@ -110,3 +110,14 @@ Example demo_enoent_in_os_remove_is_tolerated :
   (snd (fst (fst (demo (Some (39%nat, true))))), snd (fst (demo (Some (39%nat, true)))))
   = ([None], (0, 0, 44)).
 Proof. vm_compute. reflexivity. Qed.
+
+(* the first descriptor a sorter gets is number 0 (a process without a stdin):
+   it is registered as Some 0, and close() releases it like any other *)
+Definition one_spill :=
+  w_run (Z * Z) Z (Z * Z) zkey Z.ltb zenc zdec leftmost_min true (wnew Z (Z * Z) 1 true) [OpAdd _ (7, 0)] (world0 _ None).
+Example demo_descriptor_zero_registered :
+  (fds _ (snd one_spill), wfds _ _ (snd (fst one_spill))) = ([0%nat], [Some 0%nat]).
+Proof. vm_compute. reflexivity. Qed.
+Example demo_descriptor_zero_closed :
+  let '(e, s, w) := w_close Z (Z * Z) (snd (fst one_spill)) (snd one_spill) in (e, fds _ w, length (files _ w)) = (None, [], 0%nat).
+Proof. vm_compute. reflexivity. Qed.
